@@ -929,6 +929,13 @@ class _ExtendedSymplectic(_Integrator):
         """
         # Validate inputs and system compatibility
         self.validate_inputs(system, y0, t_vals)
+
+        # Zero-span grid (accepted by validate_inputs): every sample is the initial
+        # state.  Without this the frequency heuristic divides by dt = 0 and every
+        # sample after the first is NaN.
+        if np.all(np.diff(t_vals) == 0.0):
+            states = np.repeat(np.asarray(y0, dtype=np.float64)[None, :], len(t_vals), axis=0)
+            return _Solution(times=np.array(t_vals, dtype=np.float64), states=states)
         
         # Extract required data from the Hamiltonian system
         jac_H_typed = system.jac_H
